@@ -429,6 +429,7 @@ func checkRequestRules(c *core.Ctx, l *core.Ledger) {
 	}
 	// generateModule: modules are registered (Walk(addModules)) before root services are added
 	checkModulesFirst(c, l, "REQUEST", "generateModule.modules-first")
+	checkRootExact(c, l)
 	if f := c.SSAFunc(c.LookupFunc("gen", "generateModule")); f != nil {
 		// root services are exactly m.Services of the module being generated
 		rootOK := false
@@ -673,4 +674,106 @@ func checkModulesFirst(c *core.Ctx, l *core.Ledger, rule, key string) {
 		ok = len(okE) > 0 && core.AllPathsThroughEdges(f, addRoot.Block(), okE)
 	}
 	l.Check(ok, rule, key, c.Rel(f.Pos()), "every module of the file's own include tree is registered (Walk over the module with an AddModule callback, succeeded) before its services are added as roots", "root services can be added before every module they may refer to is registered by this same call: whether generation succeeds then depends on which other modules were generated earlier")
+}
+
+// checkRootExact: AddRootService / AddRootModule put the id into the request's
+// root list on every successful call unless that id is already in the root
+// list (membership in a set that is only ever extended together with the
+// list). A successful return that does neither — for instance because the
+// service is already known as somebody's parent — leaves a generated file's
+// service out of RootServices, and plugins skip it.
+func checkRootExact(c *core.Ctx, l *core.Ledger) {
+	for _, r := range []struct{ fn, list string }{{"generateServiceBuilder.AddRootService", "RootServices"}, {"generateServiceBuilder.AddRootModule", "RootModules"}} {
+		f := c.SSAFunc(c.LookupFunc("gen", r.fn))
+		key := r.fn + ":" + r.list
+		if f == nil {
+			l.Unk("ROOT-EXACT", key, "", "not found")
+			continue
+		}
+		var appendStore ssa.Instruction
+		core.Instrs(f, func(in ssa.Instruction) {
+			if st, ok := in.(*ssa.Store); ok {
+				if fa, ok := st.Addr.(*ssa.FieldAddr); ok && core.FieldOf(fa) != nil && core.FieldOf(fa).Name() == r.list && strings.HasPrefix(core.Sym(st.Val), "append(") {
+					appendStore = in
+				}
+			}
+		})
+		if appendStore == nil {
+			l.Bad("ROOT-EXACT", key, c.Rel(f.Pos()), "the id is never appended to "+r.list)
+			continue
+		}
+		// root-set maps: updated only next to an append to the list (anywhere in package gen)
+		rootSet := map[string]bool{}
+		notRoot := map[string]bool{}
+		for _, g := range c.AllFuncs("gen") {
+			if c.IsTestFile(g.Pos()) {
+				continue
+			}
+			core.Instrs(g, func(in ssa.Instruction) {
+				mu, ok := in.(*ssa.MapUpdate)
+				if !ok {
+					return
+				}
+				fld, _ := core.LoadedField(mu.Map)
+				if fld == nil {
+					return
+				}
+				with := false
+				for _, bi := range in.Block().Instrs {
+					if st, ok := bi.(*ssa.Store); ok {
+						if fa, ok := st.Addr.(*ssa.FieldAddr); ok && core.FieldOf(fa) != nil && core.FieldOf(fa).Name() == r.list {
+							with = true
+						}
+					}
+				}
+				if with {
+					rootSet[fld.Name()] = true
+				} else {
+					notRoot[fld.Name()] = true
+				}
+			})
+		}
+		var hit []core.Edge
+		core.Instrs(f, func(in ssa.Instruction) {
+			lk, ok := in.(*ssa.Lookup)
+			if !ok || !lk.CommaOk {
+				return
+			}
+			fld, _ := core.LoadedField(lk.X)
+			if fld == nil || !rootSet[fld.Name()] || notRoot[fld.Name()] {
+				return
+			}
+			for _, rr := range *lk.Referrers() {
+				if ex, ok := rr.(*ssa.Extract); ok && ex.Index == 1 {
+					for _, r2 := range *ex.Referrers() {
+						if ifi, ok := r2.(*ssa.If); ok {
+							hit = append(hit, core.Edge{From: ifi.Block(), To: ifi.Block().Succs[0]})
+						}
+					}
+				}
+			}
+		})
+		ok := true
+		where := ""
+		core.Instrs(f, func(in ssa.Instruction) {
+			ret, isR := in.(*ssa.Return)
+			if !isR || core.ReturnsNonNilError(ret) {
+				return
+			}
+			// returns on the failure edge of an error test are not successes
+			fail := core.GuardEdges(f, func(cm core.Cmp) bool {
+				k, isK := cm.Y.(*ssa.Const)
+				return cm.Op == token.NEQ && isK && k.IsNil() && core.IsErrorType(cm.X.Type())
+			})
+			if len(fail) > 0 && core.AllPathsThroughEdges(f, ret.Block(), fail) {
+				return
+			}
+			if pathAvoidingInstrAndEdges(f, appendStore, hit, in) {
+				ok = false
+				where = c.Rel(in.Pos())
+			}
+		})
+		l.Check(ok, "ROOT-EXACT", key, c.Rel(f.Pos()), "every successful call appends the id to "+r.list+" unless it is already in the root set", "a successful return at "+where+" neither appends the id to "+r.list+" nor found it in the root set: a root of the generated files can be missing from the request")
+	}
+	l.Floor("ROOT-EXACT", 2)
 }
